@@ -16,6 +16,8 @@ structure St where
   lat     : Std.HashMap Nat Int := {}
   loc     : Std.HashMap (Nat × Nat × Nat) (Option Route) := {}
   full    : Std.HashMap Nat (Option Table) := {}            -- declared routes of Full zones (none = add_route asserted)
+  star    : Std.HashMap Nat (Option StarTab) := {}          -- declared routes of Star / Vivaldi zones (none = add_route threw)
+  coords  : Std.HashMap Nat Coord := {}                     -- Vivaldi coordinates stored by the library (`C` lines)
   tol     : Int := 0
 
 def optNat (s : String) : Option (Option Nat) :=
@@ -50,6 +52,48 @@ def St.plat (s : St) : Plat where
 
 def intAbs (x : Int) : Int := if x < 0 then -x else x
 
+/-- `num/den` or an integer -/
+def parseRat (s : String) : Option Rat :=
+  match s.splitOn "/" with
+  | [n] => n.toInt?.map (fun n => (n : Rat))
+  | [n, d] => match n.toInt?, d.toNat? with
+    | some n, some d => if d = 0 then none else some (mkRat n d)
+    | _, _ => none
+  | _ => none
+
+/-- the zone's vertices_ as a list of netpoint ids -/
+def St.vertIds (s : St) (z : Nat) : List Nat := (s.verts.getD z []).map (·.1)
+
+/-- expected answer of StarZone::get_local_route from the declared routes; outer `none` = nothing to say
+(an add_route was rejected), inner `none` = exception / assertion -/
+def starExpected (s : St) (z a b : Nat) : Option (Option Route) :=
+  match s.star.getD z (some []) with
+  | none => none
+  | some t =>
+    some (match starLocal t (s.vertIds z) (none, none) a b with
+      | none => none
+      | some (links, gs, gd) => some { links := links, gwSrc := gs, gwDst := gd })
+
+/-- expected answer of VivaldiZone::get_local_route: the Star route + the model's coordinate term.
+No netpoint is called `router_…` in the generated platforms: `routerOf` finds nothing. -/
+def vivaldiExpected (s : St) (z a b : Nat) : Option (Option VRoute) :=
+  match s.star.getD z (some []) with
+  | none => none
+  | some t => some (vivaldiLocal (fun np => s.zones.contains np) (fun _ => none) (fun np => s.coords[np]?) t (s.vertIds z) a b)
+
+/-- units of a latency: 2^-50 s -/
+def latUnit : Nat := 2 ^ 50
+
+/-- resolution of the square-root bracket: 2^-64 (times the denominator of the radicand) ms -/
+def sqrtScale : Nat := 2 ^ 64
+
+/-- the observed answer of a Vivaldi zone against the model: same links and gateways, and the observed coordinate term
+within the rational bracket of the model's term (resolution ≤ 2^-64 ms), widened by the case's tolerance (rounding of the
+library's double arithmetic).  Perfect squares with a dyadic value: bracket = one point, tolerance 0: exact. -/
+def vivaldiAgrees (tol : Int) (m : VRoute) (r : Route) : Bool :=
+  let (lo, hi) := termBracket latUnit sqrtScale m.term
+  m.links == r.links && m.gwSrc == r.gwSrc && m.gwDst == r.gwDst && lo - tol ≤ r.extra && r.extra ≤ hi + tol
+
 def showLinks (l : List Nat) : String := " ".intercalate (l.map toString)
 
 def showRes : Except Err (List Lk × Int) → String
@@ -74,7 +118,7 @@ def judge (s : St) (q a : List String) : St × Verdict :=
   | ["tol", t] => match t.toInt? with
     | some t => ({ s with tol := t }, .ok)
     | none => (s, .bad)
-  | ["zone", z, p, kind] =>
+  | "zone" :: z :: p :: kind :: _ =>
     match z.toNat?, optNat p with
     | some z, some p =>
       let s := { s with zones := s.zones.insert z (p, kind) }
@@ -107,6 +151,13 @@ def judge (s : St) (q a : List String) : St × Verdict :=
           | none => none
           | some t => fullAddRoute (s.hasKids.getD z false) t src dst gs gd links (sym = "1")
         ({ s with full := s.full.insert z t }, .ok)
+      | some (_, kind), src, dst =>
+        if kind = "star" ∨ kind = "vivaldi" then
+          let t := match s.star.getD z (some []) with
+            | none => none
+            | some t => starAddRoute (fun np => s.zones.contains np) t src dst gs gd links (sym = "1")
+          ({ s with star := s.star.insert z t }, .ok)
+        else (s, .ok)
       | _, _, _ => (s, .ok)
     | _, _, _, _, _, _ => (s, .bad)
   | "bypass" :: z :: src :: dst :: gs :: gd :: links =>
@@ -120,6 +171,10 @@ def judge (s : St) (q a : List String) : St × Verdict :=
     | some l, [t] => match t.toInt? with
       | some t => ({ s with lat := s.lat.insert l t }, .ok)
       | none => (s, .bad)
+    | _, _ => (s, .bad)
+  | ["C", np] =>
+    match np.toNat?, a.mapM parseRat with
+    | some np, some [x, y, h] => ({ s with coords := s.coords.insert np { x := x, y := y, h := h } }, .ok)
     | _, _ => (s, .bad)
   | ["G", z] =>
     match z.toNat?, a with
@@ -136,7 +191,22 @@ def judge (s : St) (q a : List String) : St × Verdict :=
     match z.toNat?, x.toNat?, y.toNat? with
     | some z, some x, some y =>
       match a with
-      | [e] => if e = "exc" ∨ e = "abort" ∨ e = "timeout" then ({ s with loc := s.loc.insert (z, x, y) none }, .ok) else (s, .bad)
+      | [e] =>
+        if e = "exc" ∨ e = "abort" ∨ e = "timeout" then
+          let s' := { s with loc := s.loc.insert (z, x, y) none }
+          -- Star / Vivaldi zones: the model must say "assertion / exception" too
+          let m : Option String := match s.zones[z]? with
+            | some (_, "star") => match starExpected s z x y with
+              | some (some r) => some s!"{repr r}"
+              | _ => none
+            | some (_, "vivaldi") => match vivaldiExpected s z x y with
+              | some (some r) => some s!"{repr r}"
+              | _ => none
+            | _ => none
+          match m with
+          | some m => (s', .disagree m)
+          | none => (s', .ok)
+        else (s, .bad)
       | gs :: gd :: t :: links =>
         match optNat gs, optNat gd, t.toInt?, natList links with
         | some gs, some gd, some t, some links =>
@@ -148,6 +218,28 @@ def judge (s : St) (q a : List String) : St × Verdict :=
             -- declared routes of a Full zone (incl. the reversed copy of symmetrical ones) against the library
             match fullExpected s z x y with
             | some m => (s', if m = r then .ok else .disagree s!"{repr m}")
+            | none => (s', .ok)
+          | some (_, "star") =>
+            -- declared routes of a Star zone (up / down / loopback lists, duplicates skipped, gateways)
+            match starExpected s z x y with
+            | some (some m) => (s', if m = r then .ok else .disagree s!"{repr m}")
+            | some none => (s', .disagree "exception")
+            | none => (s', .ok)
+          | some (_, "torus") | some (_, "fattree") =>
+            -- the gateways a cluster-like zone returns: ClusterBase's table = the default gateway of a netzone leaf
+            let isRouter := fun np => match s.npZone[np]? with
+              | some (_, isHost) => !isHost
+              | none => false
+            let tab := fun np => if s.zones.contains np then P.gateway np else none
+            let m := clusterGw isRouter tab x y
+            (s', if m = (gs, gd) then .ok else .disagree s!"gateways {repr m}")
+          | some (_, "vivaldi") =>
+            -- the Star part and the coordinate term, from the coordinates the library stores
+            match vivaldiExpected s z x y with
+            | some (some m) =>
+              (s', if vivaldiAgrees s.tol m r then .ok
+                   else .disagree s!"{repr m} term bracket {(termBracket latUnit sqrtScale m.term)} observed {r.extra}")
+            | some none => (s', .disagree "exception")
             | none => (s', .ok)
           | _ => (s', .ok)
         | _, _, _, _ => (s, .bad)
